@@ -36,13 +36,23 @@ def run_property(pid, tier, repo, evidence_dir, replay_keys=None, quiet=False):
     violation_path = os.path.join(evidence_dir, "%s.violation.json" % pid)
     try:
         model = Model(repo)
-        REGISTRY[pid](model, report, tier)
+        # the generic rules first: they need none of the per-property extraction, so what they establish stands even when a
+        # later rule cannot decide (see below)
         from .rules.sharing import apply_sharing
         apply_sharing(model, report, pid)
         from .rules.readers import apply_readers
         apply_readers(model, report, pid)
         from .rules.sections import apply_sections
         apply_sections(model, report, pid)
+        try:
+            REGISTRY[pid](model, report, tier)
+        except AnalysisError as e:
+            kf0 = KnownFindings(os.path.join(HERE, "known_findings.json"))
+            if not [o for o in report.failed() if kf0.match(pid, o) is None]:
+                raise
+            # a violation was already established; that a later rule could not decide does not take it back
+            report.note("ANALYSIS-ERROR in a later rule (%s); the violations established before it are reported" % e)
+            report.extra["analysis_error_after_violation"] = str(e)
         if not report.obligations:
             raise AnalysisError("no obligation was evaluated")
     except AnalysisError as e:
